@@ -25,8 +25,8 @@ def run(chk):
     thorough = chk.tier == "thorough"
     cases = S.scripted_cases(chk, thorough, "C09")
     found, corr, thm = diffrun.campaign(chk, fam, cases, proof_ok, detail, signature_of, "C09", batch=150)
-    if thorough and not found:
-        found = R.run_real(chk, cfg, "C09") or found
+    if not found:
+        found = R.run_real(chk, cfg, "C09", thorough) or found
     diffrun.conclude(chk, found, corr, thm, proof_ok and driver_ok, detail, "C09 sockets: data path")
     chk.cov["rule"] = ("scripted differential runs of the real psocket.c (every native call wrapped, results from the script) against the Lean model: "
                        "EXHAUSTIVE enumeration of all result scripts of length <= %d along the retry-loop structure (6-symbol alphabet per data call, 4 for poll) for "
